@@ -60,6 +60,8 @@ def convert(tag_type, req_type, v):
         return v, True
     if req_type == 'BOOL':
         v = 1 if v else 0
+    if req_type == 'REAL':
+        v = f32(v)          # the request carries the value as a 32-bit float
     if tag_type in FLOAT_TYPES:
         fv = float(v)
         return (f32(fv) if tag_type == 'REAL' else fv), True
@@ -111,15 +113,8 @@ class Model(object):
             key = id(t['values'])
             if key not in done:
                 done[key] = list(t['values'])
-            m.tags[n]['values'] = done[key]
-        # re-share
-        by_addr = {}
-        for n, t in m.tags.items():
-            if t['address'] is not None:
-                if t['address'] in by_addr:
-                    t['values'] = by_addr[t['address']]
-                else:
-                    by_addr[t['address']] = t['values']
+            m.tags[n]['values'] = done[key]         # tags sharing one attribute keep sharing one list
+            m.tags[n]['address'] = t['address']
         return m
 
     def snapshot(self):
@@ -177,6 +172,11 @@ def op_message(op, tag_type=None, address=None):
         return rc.req_write_frag(path, op['type'], op['values'], op['count'], op.get('offset', 0))
     if svc == 'get_attr':
         return rc.req_get_attribute_single(path)
+    if svc == 'gaa':        # Get Attributes All addresses class/instance
+        return rc.req_get_attributes_all([p for p in path if 'attribute' not in p and 'element' not in p])
+    if svc == 'gal':        # Get Attribute List of the addressed attribute number
+        return rc.req_get_attribute_list([p for p in path if 'attribute' not in p and 'element' not in p],
+                                         [p['attribute'] for p in path if 'attribute' in p] or [1])
     if svc == 'set_attr':
         raw = bytes.fromhex(op['raw']) if 'raw' in op else rc.enc_values(tag_type, op['values'])
         return rc.req_set_attribute_single(path, raw)
@@ -338,7 +338,7 @@ def judge(model, op, exp, out, member=False):
     rpy = out['reply']
     svc = op['svc']
     want_service = {'read_tag': 0x4C, 'read_frag': 0x52, 'write_tag': 0x4D, 'write_frag': 0x53, 'get_attr': 0x0E,
-                    'set_attr': 0x10}[svc] | 0x80
+                    'set_attr': 0x10, 'gaa': 0x01, 'gal': 0x03}[svc] | 0x80
 
     def p(sig, detail):
         problems.append((sig, detail))
